@@ -100,6 +100,7 @@ func init() {
 				res = map[string]any{"res": "panic"}
 			}
 		}()
+		prepareTrust(a)
 		chain := str(a["chain"])
 		cs := setupChain(chain)
 		leaf := leafFor(chain, a["leaf"].(map[string]any), 2)
